@@ -6,6 +6,10 @@ package props
 //   fl <k> <n> <e> <off> <self> <comp> <target> <query>
 //      k = word size, n = MinMatch, e = MaxError, off = TubeOffset, self/comp = the two flags of
 //      Filter; target and query in hex ("=" as query: the target sequence itself).
+//   fln <k> <n> <e> <off> <self> <comp> <target> <query>
+//      the same run; the generator of this op puts letters outside the alphabet (runs of n) into
+//      the query and the target, which `fl` never does (C14 is stated for sequences over A,C,G,T;
+//      `fln` is the same statement with a letter outside the alphabet counted as a mismatch).
 // Observation
 //   ok <from.to.diagonal,...>     the hits pulled back from the morass, sorted
 //   err:index:<kind> | err:offset | err:iter | err:other:<hex>
@@ -204,6 +208,11 @@ func c14Case(g *hx.Gen, p c14Par, self, comp bool, t, q []byte) {
 }
 
 func c14Gen(g *hx.Gen) {
+	c14GenFl(g)
+	c14GenN(g)
+}
+
+func c14GenFl(g *hx.Gen) {
 	total := g.Scale(1500, 15000)
 	for i := 0; i < total && !g.Done(); i++ {
 		p := c14Params(g)
@@ -326,6 +335,75 @@ func c14Gen(g *hx.Gen) {
 	}
 }
 
+// c14NRuns overwrites a few stretches of s with n: single letters, runs around the word size, and
+// runs around the tube offset and the tube width (what the ticker has to step over).
+func c14NRuns(g *hx.Gen, s []byte, p c14Par) {
+	if len(s) == 0 {
+		return
+	}
+	for j := g.Pick(1, 1, 2, 3, 5); j > 0; j-- {
+		l := g.Pick(1, 1, 2, p.k-1, p.k, p.k+1, p.off, p.off+p.e, p.off+p.e+1, 2*p.off+1, 3*p.off+p.k, 5*p.off)
+		if l < 1 {
+			l = 1
+		}
+		at := g.Intn(len(s))
+		switch g.Intn(6) {
+		case 0:
+			at = 0
+		case 1:
+			at = len(s) - l
+		}
+		for i := at; i < at+l && i < len(s); i++ {
+			if i >= 0 {
+				s[i] = 'n'
+			}
+		}
+	}
+}
+
+// c14GenN: pairs with letters outside the alphabet (op fln).
+func c14GenN(g *hx.Gen) {
+	total := g.Scale(500, 5000)
+	for i := 0; i < total && !g.Done(); i++ {
+		p := c14Params(g)
+		size := g.Pick(30, 60, 100, 100, 200, 400, 400, 1000)
+		tl := g.Range(size/2, size)
+		ql := g.Range(size/2, size)
+		nsym := 4
+		if g.Chance(0.1) {
+			nsym = 2
+		}
+		t := c14Rand(g, tl, nsym)
+		q := c14Rand(g, ql, nsym)
+		nq := g.Chance(0.85)
+		if nq {
+			c14NRuns(g, q, p) // before planting: matches start right after (and end right before) a run
+		}
+		for j := g.Pick(1, 1, 2, 3, 6); j > 0; j-- {
+			L := p.n + g.Pick(0, 0, 0, 1, 2, 5, 20)
+			a, b := g.Intn(tl), g.Intn(ql)
+			switch g.Intn(5) {
+			case 0:
+				b = ql - L
+			case 1:
+				b = ql - L - g.Intn(3*p.off+p.k+2)
+			}
+			c14Plant(g, t, q, a, b, L, g.Range(0, p.e))
+		}
+		if nq && g.Chance(0.5) {
+			c14NRuns(g, q, p) // after planting: runs inside matches, at the very end of the query
+		}
+		if g.Chance(0.3) {
+			c14NRuns(g, t, p)
+		}
+		self, comp := false, g.Chance(0.1)
+		if g.Chance(0.1) {
+			self = true // the flags alone, both cuts
+		}
+		g.Casef("fln %d %d %d %d %s %s %s %s", p.k, p.n, p.e, p.off, hx.B(self), hx.B(comp), hx.Hex(t), hx.Hex(q))
+	}
+}
+
 func c14Shrink(input string) []string {
 	f := hx.Fields(input)
 	if len(f) != 9 {
@@ -420,6 +498,79 @@ func filterFacts(repo string) (string, error) {
 	if err != nil {
 		return "", err
 	}
+	// the ticker: which of the two modelled forms the scan has
+	compact := func(n ast.Node) string {
+		var sb strings.Builder
+		printer.Fprint(&sb, fset, n)
+		return strings.Join(strings.Fields(sb.String()), "")
+	}
+	var filterBody []string // the statements of Filter
+	var callback []string   // the statements of the function literal handed to ForEachKmerOf
+	for _, d := range file.Decls {
+		fd, ok := d.(*ast.FuncDecl)
+		if !ok || fd.Body == nil || fd.Name.Name != "Filter" {
+			continue
+		}
+		for _, st := range fd.Body.List {
+			filterBody = append(filterBody, compact(st))
+		}
+		ast.Inspect(fd.Body, func(n ast.Node) bool {
+			ce, ok := n.(*ast.CallExpr)
+			if !ok || len(ce.Args) != 4 || !strings.HasSuffix(compact(ce.Fun), ".ForEachKmerOf") {
+				return true
+			}
+			if fl, ok := ce.Args[3].(*ast.FuncLit); ok {
+				for _, st := range fl.Body.List {
+					callback = append(callback, compact(st))
+				}
+			}
+			return true
+		})
+	}
+	has := func(list []string, want string) bool {
+		for _, x := range list {
+			if x == want {
+				return true
+			}
+		}
+		return false
+	}
+	const (
+		kmerLoop    = "fori:=from;i<to;i++{f.commonKmer(ki.PosAt(i),position)}"
+		countdown   = "ifticker--;ticker==0{ife:=f.tubeEnd(position);e!=nil{panic(e)}ticker=f.tubeOffset}"
+		tickFunc    = "func(passedint)error{for;ticker<=passed;ticker+=f.tubeOffset{iferr:=f.tubeEnd(ticker-1);err!=nil{returnerr}}returnnil}"
+		tickInCall  = "ife:=tick(position);e!=nil{panic(e)}"
+		tickAtEnd   = "err=tick(query.Len()-f.k+1)"
+		finalRetire = "err=f.tubeEnd(query.Len()-1)"
+	)
+	var byPosition bool
+	switch {
+	case len(callback) == 5 && callback[3] == kmerLoop && callback[4] == countdown && rhs["Filter.tick"] == "":
+		byPosition = false
+	case len(callback) == 5 && callback[0] == tickInCall && callback[4] == kmerLoop && rhs["Filter.tick"] == tickFunc &&
+		has(filterBody, tickAtEnd):
+		// tick(Qlen-k+1) must come after the scan and before the final tubeEnd
+		at := func(want string) int {
+			for i, x := range filterBody {
+				if x == want {
+					return i
+				}
+			}
+			return -1
+		}
+		scan := -1
+		for i, x := range filterBody {
+			if strings.HasPrefix(x, "err=f.ki.ForEachKmerOf(query,0,query.Len(),func(") {
+				scan = i
+			}
+		}
+		if scan < 0 || !(scan < at(tickAtEnd) && at(tickAtEnd) < at(finalRetire)) {
+			return "", fmt.Errorf("filter.go: tick(query.Len()-f.k+1) is not between the scan and the final tubeEnd")
+		}
+		byPosition = true
+	default:
+		return "", fmt.Errorf("filter.go: the ticker of Filter is not a modelled variant (callback %q, tick %q)", callback, rhs["Filter.tick"])
+	}
 	// the remaining expressions the model transcribes must be the ones it was written from
 	for key, want := range map[string]string{
 		"Filter.tubeWidth":      "f.tubeOffset+f.maxError",
@@ -438,8 +589,8 @@ func filterFacts(repo string) (string, error) {
 	}
 	return fmt.Sprintf("import Biogo.Model.Filter\nnamespace Biogo.Generated.FilterFacts\n\n"+
 		"/-- the retirement rule of align/pals/filter/filter.go as parsed from the source -/\n"+
-		"def rule : Biogo.Filter.Rule := { retireSubMaxError := %v, flushFromLastTick := %v }\n\n"+
-		"end Biogo.Generated.FilterFacts\n", retire, flush), nil
+		"def rule : Biogo.Filter.Rule := { retireSubMaxError := %v, flushFromLastTick := %v, tickByPosition := %v }\n\n"+
+		"end Biogo.Generated.FilterFacts\n", retire, flush, byPosition), nil
 }
 
 func init() {
